@@ -5,6 +5,7 @@ import SFV.Proofs.Bridge
 import SFV.Proofs.FockLoss
 import SFV.Proofs.GaussRegister
 import SFV.Proofs.BosonicState
+import SFV.Proofs.MsGate
 
 /-!
 # C07 — every simulated state is physical and gates conserve what they must
@@ -182,6 +183,20 @@ fails: the weights `c/(2+2c)` of components 2 and 3 are not conjugates (`c = i`:
 theorem bosonic_cat_dropped_conjugate_counterexample :
     SFV.BosSt.cdiv (⟨0, 1⟩ : SFV.Gauss.Cx ℚ) ⟨2, 2⟩ ≠ SFV.Gauss.Cx.conj (SFV.BosSt.cdiv (⟨0, 1⟩ : SFV.Gauss.Cx ℚ) ⟨2, 2⟩) := by
   decide +kernel
+
+/-- **measurement-based squeezing, average map** (`mb_squeeze_avg`): `X = diag(cos θ, 1/cos θ)` on the target mode is symplectic,
+so with non-negative noise entries `Y = diag(yx, yp)` the map preserves the uncertainty relation — every register, position,
+squeezing, input state -/
+theorem bosonic_ms_avg_uncertainty (n k : Nat) (c ci yx yp : ℝ) (hc : c * ci = 1) (hx : 0 ≤ yx) (hp : 0 ≤ yp)
+    (V : Matrix (QI n) (QI n) ℝ) (h : Uncertainty V (omegaMatrix n)) :
+    Uncertainty (SFV.Bridge.msX n k c ci * V * (SFV.Bridge.msX n k c ci)ᵀ + SFV.Bridge.msY n k yx yp) (omegaMatrix n) :=
+  SFV.Bridge.ms_avg_uncertainty n k c ci yx yp hc hx hp V h
+
+/-- the detector-noise entry the back end uses is non-negative for `0 < η ≤ 1`; with the opposite sign (seeded change C07-c1) it
+is negative for every lossy detector -/
+theorem bosonic_ms_noise_sign (t2 η : ℝ) (ht : 0 < t2) (h0 : 0 < η) (h1 : η < 1) :
+    0 ≤ t2 * (1 - η) / η ∧ t2 * (1 - 1 / η) < 0 :=
+  ⟨SFV.Bridge.ms_noise_nonneg t2 η (le_of_lt ht) h0 (le_of_lt h1), SFV.Bridge.ms_noise_wrong_sign_negative t2 η ht h0 h1⟩
 
 /-! ### non-vacuity: the one-mode vacuum satisfies the uncertainty relation's premises -/
 example : (3 / 5 : Rat) * (3 / 5) + (4 / 5) * (4 / 5) = 1 ∧ (5 / 4 : Rat) * (5 / 4) - (3 / 4) * (3 / 4) = 1 := by
